@@ -1013,8 +1013,11 @@ def run(chk: Check) -> None:
                        "sqlglot/parser.py, the matching Generator methods and sqlglot.time.format_time; the real tokenizer is "
                        "not modelled (token types/texts are shipped; the printed text is re-tokenised by the real tokenizer)")
     chk.assumptions += [
-        "theorems cover the expression core (atoms, Paren, ladder binaries, unary, range predicates in Faithful position); "
-        "SELECT/joins/CTEs/set operations/windows/casts are covered by the search oracle only",
+        "parse_gen_partial covers the expression core: atoms, dotted columns, Paren, unary, every ladder binary, IS [NOT] NULL, "
+        "[NOT] IN (list), [NOT] BETWEEN, [NOT] LIKE (negate flag), calls of unknown functions with argument lists, in Fits "
+        "(faithful) position; the image direction (every parser output is Fits or a known defect shape) is NOT proved, it is "
+        "monitored per sample (model re-parse of every printed tree); SELECT/joins/CTEs/set operations/windows/casts are covered "
+        "by the search oracle only",
         "string and identifier escaping is C04's subject: generated literals contain no quote characters",
     ]
     import logging
